@@ -136,6 +136,20 @@ CLAIMED['C16'] = dict(
          'the string form rejects "-w\'d2^(w-1)" that the int form accepts.',
     technique='Lean 4 proof over symbolically-executed Python function bodies + exhaustive small-domain correspondence')
 
+CLAIMED['C14'] = dict(
+    text='Lean theorems: mux delivers exactly input number index for every select width, the default only for indices '
+         'beyond the listed inputs; demux is one-hot at the selected index; the barrel shifter shifts by the full amount '
+         'in the chosen direction with the chosen fill bit; bitfield_update keeps every bit outside lo..hi and places the '
+         'new value at lo; splitting a value and concatenating reproduces it (chop/partition). Every helper (mux, select, '
+         'enum_mux, sparse_mux incl. defaults and constant collapsing, prioritized_mux, MultiSelector, demux, '
+         'barrel_shifter, bitfield_update(_set), match_bitpattern with separators and wildcards, chop, partition_wire, '
+         'nested wire_struct/wire_matrix) is evaluated in the Lean Spec model against the documented selection over a '
+         'shape grid with exhaustive values; mux/demux/prioritized_mux netlists are compared with the Lean models. '
+         'PARTIAL: sparse_mux, prioritized_mux, match_bitpattern and the struct/matrix plumbing have no theorem.',
+    design='4 C14',
+    note=NOTE_COMMON + 'Python object plumbing of MultiSelector/WrappedWireVector is exercised, not modelled.',
+    technique='Lean 4 proof by induction on the select bits / shift stages + exhaustive shape-grid correspondence')
+
 NOT_YET = {}
 
 
